@@ -296,6 +296,16 @@ static const int REPQ[10][GQ__N] = {
 static const int REPS[10][GS__N] = {
     { 0,0,0,0,0,0 }, { 0,0,0,1,0,1 }, { 0,3,2,0,3,2 }, { 0,0,0,0,0,0 }, { 0,5,0,2,1,0 },
     { 0,1,1,0,0,0 }, { 0,4,0,3,0,1 }, { 0,2,0,0,0,0 }, { 1,0,0,4,2,3 }, { 0,0,2,0,4,4 } };
+static const char *rep_want; static int rep_side;
+static void rep_inspect(htp_connp_t *c, hx_obs *o, void *ctx) {
+    (void) ctx; (void) o;
+    htp_tx_t *tx = htp_list_get(c->conn->transactions, 0); if (!tx) return;
+    htp_header_t *h = htp_table_get_c(rep_side ? tx->response_headers : tx->request_headers, "x-r");
+    if (!h || bstr_cmp_c(h->value, rep_want) != 0) {
+        static hx_buf e; hb_reset(&e); if (h) hb_esc(&e, bstr_ptr(h->value), bstr_len(h->value)); hb_term(&e);
+        hx_verdict_add("C02", "repeated_field", "%s: reported value \"%s\", the values on the wire join to \"%s\"", hx_cur_script->label, h ? (char *) e.p : "(no such field)", rep_want);
+    }
+}
 static void mode_gen(int argc, char **argv) {
     int thorough = !strcmp(hx_tier, "thorough");
     int D = atoi(hx_arg(argc, argv, "--dev", thorough ? "3" : "2"));
@@ -304,6 +314,29 @@ static void mode_gen(int argc, char **argv) {
     gs_alts[GS_STATUS] = 7;        /* + an interim 103 before the final answer (the segmentation / steady-state workloads keep the 6 others: one defect, one place) */
     long total = gx_enum_deviations(D, gen_visit, NULL);
     hx_emit_stat("messages_total", hx_shard_i == 0 ? total : 0);
+    /* repeat layer: one field sent 2..4 times (request and response side), every combination of value lengths 1..5: the reported value is the values joined by ", " */
+    {
+        static hx_buf q, r; static char want[64], lab[160];
+        for (int side = 0; side < 2; side++) for (int n = 2; n <= 4; n++) {
+            int len[4] = { 1, 1, 1, 1 };
+            for (;;) {
+                long id = gen_counter++;
+                if (id % hx_shard_n == hx_shard_i && !hx_deadline_hit()) {
+                    hb_reset(&q); hb_reset(&r); want[0] = 0;
+                    hb_puts(&q, "GET /r HTTP/1.1\r\nHost: h\r\n"); hb_puts(&r, "HTTP/1.1 200 OK\r\nContent-Length: 0\r\n");
+                    hx_buf *w = side ? &r : &q;
+                    for (int k = 0; k < n; k++) { char v[8]; for (int i = 0; i < len[k]; i++) v[i] = (char) ('a' + k * 5 + i); v[len[k]] = 0; hb_printf(w, "X-R: %s\r\n", v); if (k) strcat(want, ", "); strcat(want, v); }
+                    hb_puts(&q, "\r\n"); hb_puts(&r, "\r\n");
+                    snprintf(lab, sizeof lab, "field X-R sent %d times in the %s, value lengths %d,%d,%d,%d", n, side ? "response" : "request", len[0], len[1], n > 2 ? len[2] : 0, n > 3 ? len[3] : 0);
+                    hx_script_init(&S); S.label = lab; cx_build(&S, q.p, q.n, r.p, r.n, NULL, 0, 1);
+                    rep_want = want; rep_side = side; S.inspect = rep_inspect;
+                    if (hx_run(&S, &O) == 0) { n_exec++; n_calls += O.ncalls; hx_report_verdicts(&S, &O, PROPS); }
+                }
+                int k = n - 1; while (k >= 0 && ++len[k] == 6) len[k--] = 1;
+                if (k < 0) break;
+            }
+        }
+    }
     /* pipelines: every sequence of length <= 3 over the representatives */
     for (int len = 1; len <= 3; len++) {
         int idx[3] = { 0, 0, 0 };
